@@ -4,8 +4,8 @@
    (I) interleaving level: model/C04_race.v, steps = the yield points of the instrumented
        unix_volume.go; every interleaving of a TOUCH/PUT request with a DELETE request. *)
 From Coq Require Import ZArith NArith List String Bool.
-From AV Require Import lib.Str model.C04_model model.C04_run model.C04_race model.C04_race_run
-  proofs.C04_proofs proofs.C04_frame_proofs proofs.C04_race_proofs.
+From AV Require Import lib.Str model.C04_model model.C04_run model.C04_fixes model.C04_race model.C04_race_run
+  proofs.C04_proofs proofs.C04_frame_proofs proofs.C04_fix_proofs proofs.C04_spec_proofs proofs.C04_meets_proofs proofs.C04_race_proofs.
 Import ListNotations.
 Local Open Scope Z_scope.
 
@@ -32,6 +32,15 @@ Theorem C04_fresh_survives_untrash_refuted :
     ~ (exists v m, In v (vols (final c s1 hs)) /\ find_block (v_blocks v) h = Some m).
 Proof. exact fresh_survives_untrash_refuted. Qed.
 Print Assumptions C04_fresh_survives_untrash_refuted.
+
+(* with the repair proposed in fixes/F20.diff (Untrash keeps an existing block file) the statement
+   holds for ALL histories, Untrash of the same hash included *)
+Theorem C04_fresh_survives_with_F20_repair : forall c s t o h code s1 hs,
+  (o = Put h \/ o = Touch h) -> step_fixed c s t o = (code, s1) -> code = 200%N ->
+  Forall (fun p => t <= fst p /\ fst p < t + ttl c) hs ->
+  exists v m, In v (vols (final_fixed c s1 hs)) /\ find_block (v_blocks v) h = Some m /\ t <= m.
+Proof. exact fresh_survives_fixed. Qed.
+Print Assumptions C04_fresh_survives_with_F20_repair.
 
 (* what a single request can do to a single volume *)
 Theorem C04_step_shape : forall c now s o, Forall2 (change c now o) (vols s) (vols (snd (step c s now o))).
@@ -89,6 +98,28 @@ Theorem C04_deadline_whole_seconds : forall c now s o,
 Proof. exact deadline_whole_seconds. Qed.
 Print Assumptions C04_deadline_whole_seconds.
 
+(* the boolean oracle that judges the observed histories is the Prop-level specification SpecH
+   (per step and volume: read-only unchanged; a block disappears only as trash_only_matching says, into
+   a trash entry whose deadline lies in the window; trash entries leave only by untrash or an expired
+   sweep; new trash entries are removed blocks; block timestamps change only by Put/Touch/Untrash;
+   untrash restores; and fresh_survives over the whole history); the F20 predicate is exactly
+   "only fresh_survives fails, and it holds again when the search stops at an Untrash of that hash" *)
+Theorem C04_spec_b_reflects : forall c, C04_run.spec_b c = true <-> SpecH c.
+Proof. exact C04_spec_proofs.spec_b_iff. Qed.
+Print Assumptions C04_spec_b_reflects.
+
+Theorem C04_known_F20_predicate : forall c, known_F20_b c = true <->
+  StepsOk (c_cfg c) (c_ro c) (c_uuid c) (c_init c) (c_steps c) /\ ~ FreshOk (c_cfg c) false (c_steps c) /\ FreshOk (c_cfg c) true (c_steps c).
+Proof. exact known_F20_iff. Qed.
+Print Assumptions C04_known_F20_predicate.
+
+(* the model's own trace (every configuration, initial state and history with a non-decreasing clock)
+   satisfies the fresh_survives clause of that oracle outside the F20 trigger *)
+Theorem C04_model_meets_fresh_clause : forall c hs s prev,
+  nondecr prev hs -> fresh_ok c true (obs_run c s hs) = true.
+Proof. exact model_fresh_ok_b. Qed.
+Print Assumptions C04_model_meets_fresh_clause.
+
 (* ================= (I) ================= *)
 Local Close Scope Z_scope.
 
@@ -138,10 +169,21 @@ Theorem C04_put_trash_race_corrupt_partial : forall rm sch s,
 Proof. exact put_trash_race_corrupt_partial. Qed.
 Print Assumptions C04_put_trash_race_corrupt_partial.
 
+(* with the repair proposed in fixes/F7.diff (WriteBlock takes the flock on the file it replaces) every
+   interleaving keeps the contract for every prior state, corrupt included, and nobody deadlocks *)
+Theorem C04_put_trash_race_with_F7_repair : forall p rm n s,
+  rrun n (init7 p true rm true) s -> succs s = [] -> contract s = true /\ both_done s = true.
+Proof. exact put_trash_race_fixed. Qed.
+Print Assumptions C04_put_trash_race_with_F7_repair.
+
 Theorem C04_fresh_block_never_trashed : forall put rm n s,
   rrun n (init PFreshGood put rm) s -> succs s = [] -> exists i, at_path s = Some i /\ i_cont i = Good.
 Proof. exact fresh_block_never_trashed. Qed.
 Print Assumptions C04_fresh_block_never_trashed.
+
+Theorem C04_race_spec_b_reflects : forall c, C04_race_run.spec_b c = true <-> SpecI c.
+Proof. exact race_spec_b_iff. Qed.
+Print Assumptions C04_race_spec_b_reflects.
 
 Theorem C04_example_schedule :
   exists s, exec (init POldGood false false) [TA; TA; TA; TA; TA; TB; TB; TB; TB; TB] = Some s /\ succs s = [] /\
